@@ -293,6 +293,8 @@ bloom_filter_alloc<A> bloom_filter_alloc<A>::deserialize(std::istream& is, const
   const uint32_t num_longs = read<uint32_t>(is); // sized in java longs
   read<uint32_t>(is); // unused
 
+  if (!is.good()) throw std::runtime_error("error reading from std::istream");
+
   // if empty, stop reading
   if (is_empty) {
     return bloom_filter_alloc<A>(static_cast<uint64_t>(num_longs) << 6, num_hashes, seed, allocator);
@@ -308,7 +310,13 @@ bloom_filter_alloc<A> bloom_filter_alloc<A>::deserialize(std::istream& is, const
   if (bit_array == nullptr) {
     throw std::bad_alloc();
   }
-  read(is, bit_array, num_bytes);
+  try {
+    read(is, bit_array, num_bytes);
+    if (!is.good()) throw std::runtime_error("error reading from std::istream");
+  } catch (...) { // also a stream with exceptions enabled must not leak the bit array
+    alloc.deallocate(bit_array, num_bytes);
+    throw;
+  }
 
   // pass to constructor
   return bloom_filter_alloc<A>(seed, num_hashes, is_dirty, true, false, static_cast<uint64_t>(num_longs) << 6, num_bits_set, bit_array, nullptr, allocator);
@@ -374,9 +382,14 @@ bloom_filter_alloc<A> bloom_filter_alloc<A>::internal_deserialize_or_wrap(void* 
     return bloom_filter_alloc<A>(static_cast<uint64_t>(num_longs) << 6, num_hashes, seed, allocator);
   }
 
+  ensure_minimum_memory(end_ptr - ptr, sizeof(uint64_t));
   uint64_t num_bits_set;
   ptr += copy_from_mem(ptr, num_bits_set);
   const bool is_dirty = (num_bits_set == DIRTY_BITS_VALUE);
+
+  // the bit array must lie inside the given memory, whether it is wrapped or copied
+  const uint64_t num_bytes = num_longs << 3;
+  ensure_minimum_memory(end_ptr - ptr, num_bytes);
 
   uint8_t* bit_array;
   uint8_t* memory;
@@ -386,8 +399,6 @@ bloom_filter_alloc<A> bloom_filter_alloc<A>::internal_deserialize_or_wrap(void* 
   } else {
     // allocate memory
     memory = nullptr;
-    const uint64_t num_bytes = num_longs << 3;
-    ensure_minimum_memory(end_ptr - ptr, num_bytes);
     AllocUint8 alloc(allocator);
     bit_array = alloc.allocate(num_bytes);
     if (bit_array == nullptr) {
